@@ -198,7 +198,23 @@ pub fn check_reader(e: En, kind: RKind, wrap: Wrap, image: &[u8], ops: &[R14], r
                     ROp::Skip(n) => guard(|| h.r.skip_bits(*n).map(|_| None)),
                     ROp::Unary => guard(|| h.r.read_unary().map(Some)),
                     ROp::Code(c) => guard(|| h.r.read_code(*c).map(Some)),
-                    _ => Out::Ok(None),
+                    ROp::PeekSkip(k, n) => {
+                        let v = guard(|| h.r.peek_bits(*k).map(Some));
+                        if v.is_ok() {
+                            let s = guard(|| {
+                                h.r.skip_after_peek(*n);
+                                Ok(())
+                            });
+                            if let Out::Panic(p) = s {
+                                Out::Panic(p)
+                            } else {
+                                v
+                            }
+                        } else {
+                            v
+                        }
+                    }
+                    ROp::Pos | ROp::CloneSwitch | ROp::Seek(_) | ROp::IoRead(_) | ROp::PastEnd => continue,
                 };
                 let (ev, np) = match exp {
                     Expect::Value(v, np) => (Some(v), np),
@@ -293,6 +309,140 @@ pub fn check_reader(e: En, kind: RKind, wrap: Wrap, image: &[u8], ops: &[R14], r
     rep.sample(kvf);
 }
 
+// ---- a wrapper around a *section* of a stream: wrap, use, unwrap (into_inner), carry on ----------------
+
+fn apply_w<E: dsi_bitstream::prelude::Endianness, BW: dsi_bitstream::prelude::BitWrite<E> + dsi_bitstream::prelude::GammaWrite<E>>(w: &mut BW, ops: &[WOp]) -> bool {
+    for op in ops {
+        let ok = match op {
+            WOp::Bits(v, n) => w.write_bits(*v, *n).is_ok(),
+            WOp::Unary(x) => w.write_unary(*x).is_ok(),
+            WOp::Code(_, v) => w.write_gamma(*v).is_ok(),
+            _ => true,
+        };
+        if !ok {
+            return false;
+        }
+    }
+    true
+}
+
+fn section_ops(rng: &mut Rng, n: usize) -> Vec<WOp> {
+    (0..n)
+        .map(|_| match rng.below(3) {
+            0 => {
+                let nb = rng.below(65) as usize;
+                let v = rng.next();
+                WOp::Bits(if nb == 64 { v } else { v & ((1u64 << nb) - 1) }, nb)
+            }
+            1 => WOp::Unary(rng.log_uniform(7)),
+            _ => WOp::Code(CodeOp::Std(Code::Gamma), rng.log_uniform(30)),
+        })
+        .collect()
+}
+
+macro_rules! section_case {
+    ($E:ty, $W:ty, $e:expr, $rng:expr, $rep:expr) => {{
+        use dsi_bitstream::prelude::*;
+        let e: En = $e;
+        let rep: &mut Report = $rep;
+        let wbits = <$W as crate::backends::HWord>::NBITS;
+        let (na, nb, nc) = ($rng.below(4) as usize, 1 + $rng.below(5) as usize, 1 + $rng.below(4) as usize);
+        let a = section_ops($rng, na);
+        let b = section_ops($rng, nb);
+        let c = section_ops($rng, nc);
+        let mut bits: Bits = vec![];
+        for op in a.iter() {
+            model_apply(&mut bits, e, wbits, op);
+        }
+        let before = bits.len();
+        for op in b.iter() {
+            model_apply(&mut bits, e, wbits, op);
+        }
+        let section = bits.len() - before;
+        for op in c.iter() {
+            model_apply(&mut bits, e, wbits, op);
+        }
+        let kvf = || format!("side=section e={} w={} a={} b={} c={}", e.name(), stringify!($W), wops_to_string(&a), wops_to_string(&b), wops_to_string(&c));
+        // ---- writer: the wrapper must leave the wrapped writer exactly where an unwrapped one would be
+        let got = guard_v(|| {
+            let mut w = BufBitWriter::<$E, _>::new(MemWordWriterVec::new(Vec::<$W>::new()));
+            apply_w::<$E, _>(&mut w, &a);
+            let mut cw = CountBitWriter::<$E, _, false>::new(w);
+            apply_w::<$E, _>(&mut cw, &b);
+            let counted = cw.bits_written;
+            let mut w = cw.into_inner();
+            apply_w::<$E, _>(&mut w, &c);
+            (counted, crate::backends::bytes_from_words(&w.into_inner().unwrap().into_inner()))
+        });
+        rep.eval(1);
+        rep.case(&("section-writer", e, stringify!($W), before % wbits, section % wbits));
+        let img = image(&bits, e, wbits / 8);
+        match &got {
+            Out::Ok((counted, bytes)) if *counted == section && *bytes == img => {}
+            o => rep.violation(
+                &format!("CountBit|section|writer|{}|{}", e.name(), if !o.is_ok() { o.class() } else { "stream-differs".to_string() }),
+                || format!("wrapping only the middle section ({} bits after {} bits) and unwrapping with into_inner: {:?}; the unwrapped stream is {} and the section has {} bits", section, before, o, hex(&img), section),
+                kvf,
+            ),
+        }
+        // ---- reader: read the same three sections back, the middle one through a wrapper
+        let words: Vec<$W> = crate::backends::words_from_bytes(&{
+            let mut p = img.clone();
+            p.resize(p.len() + 16, 0);
+            p
+        });
+        let read_back = guard_v(|| {
+            let mut out: Vec<u64> = vec![];
+            let mut r = BufBitReader::<$E, _>::new(MemWordReader::new(words.clone()));
+            fn rd<E: Endianness, BR: BitRead<E> + GammaRead<E>>(r: &mut BR, ops: &[WOp], out: &mut Vec<u64>) {
+                for op in ops {
+                    match op {
+                        WOp::Bits(_, n) => out.push(r.read_bits(*n).unwrap()),
+                        WOp::Unary(_) => out.push(r.read_unary().unwrap()),
+                        WOp::Code(..) => out.push(r.read_gamma().unwrap()),
+                        _ => {}
+                    }
+                }
+            }
+            rd::<$E, _>(&mut r, &a, &mut out);
+            let mut cr = CountBitReader::<$E, _, false>::new(r);
+            rd::<$E, _>(&mut cr, &b, &mut out);
+            let counted = cr.bits_read;
+            let mut r = cr.into_inner();
+            rd::<$E, _>(&mut r, &c, &mut out);
+            (counted, out, r.bit_pos().unwrap())
+        });
+        let want: Vec<u64> = a.iter().chain(b.iter()).chain(c.iter()).filter_map(|op| match op {
+            WOp::Bits(v, _) => Some(*v),
+            WOp::Unary(x) => Some(*x),
+            WOp::Code(_, v) => Some(*v),
+            _ => None,
+        }).collect();
+        rep.eval(1);
+        match &read_back {
+            Out::Ok((counted, vals, pos)) if *counted == section && *vals == want && *pos == bits.len() as u64 => {}
+            o => rep.violation(
+                &format!("CountBit|section|reader|{}|{}", e.name(), if !o.is_ok() { o.class() } else { "values-or-position-differ".to_string() }),
+                || format!("reading the middle section through a wrapper and unwrapping with into_inner: {:?}; expected counter {} values {:?} final position {}", o, section, want, bits.len()),
+                kvf,
+            ),
+        }
+    }};
+}
+
+pub fn check_sections(e: En, wbits: usize, rng: &mut Rng, n: usize, rep: &mut Report) {
+    for _ in 0..n {
+        match (e, wbits) {
+            (En::BE, 16) => section_case!(BE, u16, e, rng, rep),
+            (En::BE, 32) => section_case!(BE, u32, e, rng, rep),
+            (En::BE, _) => section_case!(BE, u64, e, rng, rep),
+            (En::LE, 16) => section_case!(LE, u16, e, rng, rep),
+            (En::LE, 32) => section_case!(LE, u32, e, rng, rep),
+            (En::LE, _) => section_case!(LE, u64, e, rng, rep),
+        }
+    }
+}
+
 #[derive(Clone, Copy, Debug, PartialEq, Eq, Hash)]
 enum Item {
     Writer(En, WWord, Wrap),
@@ -326,6 +476,12 @@ pub fn run(ctx: &Ctx) -> Report {
                     }
                     let ops = vec![W14::Op(WOp::Bits(5, 3)), W14::Op(WOp::Code(*c, v)), W14::Op(WOp::Flush), W14::Op(WOp::Code(*c, v / 2)), W14::CopyFrom(7 + v % 90)];
                     check_writer(e, w, wrap, &ops, &src, rep);
+                }
+            }
+            // (1b) the wrapper around a section of the stream only
+            if wrap == Wrap::Count {
+                for wb in [16usize, 32, 64] {
+                    check_sections(e, wb, &mut rng, ctx.pick(3, 1500, 10000), rep);
                 }
             }
             // (2) random histories over all operations
@@ -412,6 +568,17 @@ pub fn replay(case: &str, rep: &mut Report) {
     let kv = Kv::parse(case);
     let e = parse_en(kv.get("e"));
     let wrap = *Wrap::ALL.iter().find(|w| w.name().replace('<', "[").replace('>', "]") == kv.get("wrap")).expect("bad wrap");
+    if kv.get("side") == "section" {
+        // section cases are regenerated from the seed: re-run a batch for this endianness and word
+        let wb = match kv.get("w") {
+            "u16" => 16,
+            "u32" => 32,
+            _ => 64,
+        };
+        let mut rng = Rng::derive(0, crate::report::hash_of(&(0xC14u64, e, if wb == 16 { WWord::U16 } else { WWord::U64 }, Wrap::Count)));
+        check_sections(e, wb, &mut rng, 1500, rep);
+        return;
+    }
     if kv.get("side") == "writer" {
         let w = *WWord::ALL.iter().find(|w| w.name() == kv.get("w")).unwrap();
         check_writer(e, w, wrap, &parse_w14(kv.get("ops")), &unhex(kv.get("src")), rep);
